@@ -442,6 +442,9 @@ def check_sweep(spec, sweep_no, before, trace, data, y_ref, fail, counts):
                          {"Q": Q.tolist(), "mu_part": b.tolist()}, sig)
                 if rec["failed"]:
                     value = None
+                elif rec["z"] is None:
+                    # the draw bypassed the model's generator (already reported above): nothing to recompute
+                    value = trace_value_after(trace, base, ix, rec)
                 else:
                     value = trace_value_after(trace, base, ix, rec)
                     # MVN: result = U^-1 z + Q^-1 b  (float64, on the recorded float32 Q)
